@@ -33,6 +33,8 @@ KINDS = {
     'expr': (EXPR_POOL, _e, ', '),
     'del_target': (TARGET_POOL, lambda t: ast.parse('del ' + t).body[0].targets[0], ', '),
     'assign_target': (TARGET_POOL, lambda t: ast.parse(t + ' = 1').body[0].targets[0], ' = '),
+    # elements of a List / Tuple that is itself an assignment or for target (Store context): one Starred is allowed
+    'store_elt': (TARGET_POOL + ['*s', '*t.u', '(c, d)', '[c, *d]', '(c, *d)'], lambda t: ast.parse('[' + t + '] = 1').body[0].targets[0].elts[0], ', '),
     'stmt': (STMT_POOL, lambda t: ast.parse(t).body, '\n'),
     'alias_import': (['x', 'x.y', 'x as y', 'x.y as z', 'ä'], lambda t: ast.parse('import ' + t).body[0].names[0], ', '),
     'alias_from': (['x', 'x as y', 'zz', 'ä as y'], lambda t: ast.parse('from m import ' + t).body[0].names[0], ', '),
@@ -67,6 +69,11 @@ def containers(tree):
         c = node.__class__
         add = lambda f, kind, mn=0: out.append((path, node, f, kind, mn))  # noqa: E731
         if c in (ast.List, ast.Tuple, ast.Set):
+            if isinstance(getattr(node, 'ctx', None), ast.Store) and (
+                    (isinstance(parent, ast.Assign) and field == 'targets') or (isinstance(parent, (ast.For, ast.AsyncFor)) and field == 'target')):
+                if c is ast.List or len(node.elts) != 1:  # ('a, = x': a one-element unparenthesized Tuple target has its own comma rules)
+                    add('elts', 'store_elt', 0 if c is ast.List else 2)
+                continue
             if isinstance(getattr(node, 'ctx', None), (ast.Store, ast.Del)):
                 continue
             if c is ast.Tuple and id(node) in in_subscript:
@@ -593,6 +600,8 @@ class C03(Plugin):
             else:
                 ns = norm_slice(n, idx, idx)
                 lst[ns[0]:ns[0]] = new
+        if op.get('kind') == 'store_elt' and sum(isinstance(x, ast.Starred) for x in lst) > 1:
+            return None  # two starred targets: not valid Python
         return exp
 
     # -- application through an entry point ---------------------------------------------------------------------------
